@@ -884,7 +884,12 @@ def execute(sc):
         if relaxed:
             ctx["exp_after"].update(rc for _, rc in out["recs"])
             ctx["exp_after"].update(rc for _, rc in out["opt"])
-            ctx["act_after"].update(rc for _, rc in new)
+            # A torn record followed by later appended bytes can happen to parse as a well-formed value that is not a
+            # flow (its length prefix swallows part of what follows).  The real reader refuses such a value exactly like
+            # an unreadable tail, so it is the torn write seen again, not a record.
+            if any(rc[0] == "garbage" for _, rc in new):
+                probe("non_flow_value_in_torn_region")
+            ctx["act_after"].update(rc for _, rc in new if rc[0] != "garbage")
             # Records may be missing from the failing write on (an unreadable tail counts as missing) and may
             # reach the disk later than expected (buffering); what is readable must at every moment be a
             # sub-multiset of what the model allows so far: nothing duplicated, nothing wrong.
